@@ -47,7 +47,13 @@ func (l *auListener) Close() error {
 type auProbe struct{ calls *int64 }
 
 func (p auProbe) Receive(m *qnet.Message, from bus.Channel) error {
+	if m.Header.Action == 0xFFFFFF { // the harness's barrier
+		return from.SendError(m, bus.ErrActionNotFound)
+	}
 	atomic.AddInt64(p.calls, 1)
+	if m.Header.Type == qnet.Post {
+		return nil
+	}
 	return from.SendReply(m, []byte{})
 }
 func (p auProbe) Activate(bus.Activation) error { return nil }
@@ -187,6 +193,9 @@ func (w *auWorld) frame(k int, typ uint8, svc, obj, act uint32, payload []byte) 
 	if svc == 0 && obj == 0 && typ != qnet.Call && typ != qnet.Post && typ >= 1 && typ <= 8 {
 		ignored = true // service 0 runs nothing for it and says nothing
 	}
+	if typ == qnet.Post {
+		ignored = true // a post is never answered
+	}
 	sentinel := uint32(0)
 	if ignored {
 		// nothing is expected back: a call of an unknown action of service 0 goes the same way
@@ -194,6 +203,10 @@ func (w *auWorld) frame(k int, typ uint8, svc, obj, act uint32, payload []byte) 
 		w.nextID++
 		sentinel = w.nextID
 		sh := qnet.Header{Magic: 0x42dead42, ID: sentinel, Type: qnet.Call, Service: 0, Object: 0, Action: 0}
+		if typ == qnet.Post && svc != 0 {
+			// the barrier follows the post to the same object (same mailbox)
+			sh.Service, sh.Object, sh.Action = svc, obj, 0xFFFFFF
+		}
 		if !w.write(c, qnet.NewMessage(sh, nil)) {
 			c.dead = true
 			return "closed-without-answer" + suffix()
